@@ -303,7 +303,7 @@ func main() {
 		} else if rf.Hist != nil {
 			k, d := runHistory(*rf.Hist)
 			fmt.Printf("history %s: %s %s\n", *rf.Hist, k, d)
-			bad = k != "" && (target != "C07" || k == "error")
+			bad = k != "" && !((target == "C07" && k != "error" && k != "errored" && k != "exitcode") || (target != "C07" && (k == "errored" || k == "exitcode")))
 		} else if rf.Cp != nil {
 			d := runCancelProc(*rf.Cp)
 			fmt.Printf("cancel-proc case %+v: %s\n", *rf.Cp, d)
@@ -406,6 +406,28 @@ func main() {
 		}
 	}
 	switch *common.Unit {
+	case "large": // "plus larger tasks": 6..40 commands x 0..12 variations, one failing command at the first, a middle or the last position (or none), every hook/condition combination
+		for _, k := range []int{6, 17, 40} {
+			for _, v := range []int{0, 5, 12} {
+				for _, pos := range []int{-1, 0, k / 2, k - 1} {
+					st := make([]int, k)
+					if pos >= 0 {
+						st[pos] = 3
+					}
+					for _, allow := range []bool{false, true} {
+						for _, b := range hooks {
+							for _, a := range hooks {
+								for _, cd := range conds {
+									if do(TaskCase{Status: st, Variations: v, Allow: allow, Before: b, After: a, Cond: cd}) {
+										goto done
+									}
+								}
+							}
+						}
+					}
+				}
+			}
+		}
 	case "grammar3": // k<=3, v<=3, statuses {0,1,2,255}, full product
 		grammar(3, 3, []int{0, 1, 2, 255}, -1)
 	case "grammar4": // thorough: k<=4, v<=4, at most two failing commands over {1,2,127,255}
@@ -720,6 +742,7 @@ type toCase struct {
 	Prior     bool   `json:"prior,omitempty"` // the command before the overrunning one exits non-zero (tolerated: allow_failure)
 	Stage     bool   `json:"stage,omitempty"` // the task runs as a pipeline stage that carries an env override (the scheduler runs a copy of the task)
 	Var2      bool   `json:"var2,omitempty"`  // the task has two variations and the command overruns in the second one only
+	Rerun     bool   `json:"rerun,omitempty"` // the task object has already run once, within its timeout: the timeout bounds the commands of the second run all the same
 }
 
 func runTimeout(c toCase) string {
@@ -735,6 +758,9 @@ func runTimeout(c toCase) string {
 		"busy":  "while :; do :; done",
 		"trap":  "sh -c 'trap \"\" INT; exec sleep 30'",
 	}[c.Shape]
+	if c.Rerun && over != "" {
+		over = "if [ -e " + filepath.Join(dir, "slow") + " ]; then " + over + "; fi"
+	}
 	mark := func(m string) string { return "echo " + m + " >> " + trace }
 	t := task.NewTask()
 	t.Name = "to"
@@ -800,6 +826,20 @@ func runTimeout(c toCase) string {
 		return "infra: " + err.Error()
 	}
 	r.Stdout, r.Stderr, r.OutputFormat = io.Discard, io.Discard, output.FormatRaw
+	if c.Rerun {
+		first := make(chan error, 1)
+		go func() { first <- r.Run(t) }()
+		select {
+		case err := <-first:
+			if err != nil {
+				return fmt.Sprintf("KIND:spurious-failure:the first run (nothing overruns) returned %v", err)
+			}
+		case <-time.After(time.Duration(c.TimeoutMs)*time.Millisecond*4 + 10*time.Second):
+			return "KIND:not-terminated:the first run (nothing overruns) did not return"
+		}
+		os.Remove(trace)
+		os.WriteFile(filepath.Join(dir, "slow"), nil, 0o644)
+	}
 	start := time.Now()
 	done := make(chan error, 1)
 	var stageSt *scheduler.Stage
@@ -859,7 +899,7 @@ func timeoutUnit(res *common.Result) {
 			return false
 		}
 		res.Evaluations++
-		distinct[fmt.Sprint(c.Shape, c.Position, c.Allow, c.Prior, c.Var2, c.Stage)] = true
+		distinct[fmt.Sprint(c.Shape, c.Position, c.Allow, c.Prior, c.Var2, c.Stage, c.Rerun)] = true
 		if res.Evaluations%5 == 1 {
 			res.AddSample(c)
 		}
@@ -879,7 +919,7 @@ func timeoutUnit(res *common.Result) {
 			}
 		}
 		parts := strings.SplitN(d, ":", 3)
-		return res.AddViolation(common.Violation{Property: "C13", Key: fmt.Sprintf("C13:%s|shape=%s|position=%s|allow=%v|prior=%v|var2=%v|stage=%v|timeout=%dms", parts[1], c.Shape, c.Position, c.Allow, c.Prior, c.Var2, c.Stage, c.TimeoutMs), Desc: fmt.Sprintf("%+v: %s", c, parts[2]), Config: c},
+		return res.AddViolation(common.Violation{Property: "C13", Key: fmt.Sprintf("C13:%s|shape=%s|position=%s|allow=%v|prior=%v|var2=%v|stage=%v|rerun=%v|timeout=%dms", parts[1], c.Shape, c.Position, c.Allow, c.Prior, c.Var2, c.Stage, c.Rerun, c.TimeoutMs), Desc: fmt.Sprintf("%+v: %s", c, parts[2]), Config: c},
 			map[string]interface{}{"harness": "taskrun", "mode": "plain", "property": "C13", "to": c})
 	}
 	timeouts := []int{100, 1000}
@@ -907,6 +947,10 @@ func timeoutUnit(res *common.Result) {
 					}
 					// the task runs as a pipeline stage with an override
 					if shape == "sleep" && do(toCase{TimeoutMs: ms, Shape: shape, Position: pos, Allow: allow, Stage: true}) {
+						return
+					}
+					// the task object has already run once (within its timeout)
+					if shape == "sleep" && do(toCase{TimeoutMs: ms, Shape: shape, Position: pos, Allow: allow, Rerun: true}) {
 						return
 					}
 					// the overrun happens in the second variation only
@@ -1135,12 +1179,28 @@ pipelines:
 			got[i], got[i+1] = got[i+1], got[i]
 		}
 	}
+	// C07 says nothing about how often the stages of a pipeline included by two stages run (C03 does: at most
+	// once, decided on the scheduler harness): a repeated "okin failin" block is folded before the comparison
+	for i := 0; i+3 < len(got); {
+		if got[i] == "okin" && got[i+1] == "failin" && got[i+2] == "okin" && got[i+3] == "failin" {
+			got = append(got[:i], got[i+2:]...)
+			continue
+		}
+		i++
+	}
 	for _, f := range []string{".a", ".b"} {
 		if b, err := os.ReadFile(trace + f); err == nil {
 			for _, t := range strings.Fields(string(b)) {
 				got = append(got, "+"+t)
 			}
 		}
+	}
+	for i := 0; i+1 < len(got); { // the same for the stages of pshlate's shared pipeline
+		if got[i] == got[i+1] && (got[i] == "failin" || got[i] == "+slow1") {
+			got = append(got[:i], got[i+1:]...)
+			continue
+		}
+		i++
 	}
 	if strings.Join(got, " ") != strings.Join(want, " ") {
 		return fmt.Sprintf("trace %v, model %v (exit status %d)", got, want, code)
